@@ -411,6 +411,12 @@ func evalConstructorDeclareStmt(vm *r.VM, node *syntax.FunctionDeclareStmt) erro
 	if !ok {
 		return zerr.InvalidClassType(className.GetLiteral())
 	}
+	// only a type defined by a program module takes a constructor: the predefined types
+	// (异常) belong to the built-in module, which has no scope to run a method body in,
+	// and they are shared by every execution
+	if module == nil || module.GetID() == r.NATIVE_CODE_MODULE_ID {
+		return zerr.InvalidClassType(className.GetLiteral())
+	}
 
 	//// there are some different Factors from normal method function:
 	// 1. no outerScope (clousure scope)
